@@ -76,8 +76,18 @@ extern "C" void h_file_fixedpoint(int ver, int feat) {
 	sym_assert(rc == 0, "C01-reload: the file written without reordering does not load");
 	sym_reach("loaded");
 	FmRange s2 = fm_save(b, true);
-	sym_assert(sym_out_equal(s1.a, s1.b, s2.a, s2.b), "C01-file-fixedpoint: load+save of the written file is not byte-identical");
+	// s2 is the normal form of a loaded file (texture paths cleaned on load): it must be a fixed point.  The
+	// API-built model's own first save (s1) is already in normal form unless it carries an uncleaned texture path.
+	if (!(feat & FM_TEXPATH))
+		sym_assert(sym_out_equal(s1.a, s1.b, s2.a, s2.b), "C01-file-fixedpoint: load+save of the written file is not byte-identical");
 	check_tables(b, s2, false);
+	{
+		NifFile b2;
+		int rcb = fm_load(b2, s2);
+		sym_assert(rcb == 0, "C01-reload2: the normal-form file does not load");
+		FmRange s3 = fm_save(b2, true);
+		sym_assert(sym_out_equal(s2.a, s2.b, s3.a, s3.b), "C01-file-fixedpoint2: the file written from a loaded model is not a fixed point of load+save");
+	}
 	// default (sorting/pruning) save converges within two rounds
 	NifFile c;
 	fm_load(c, s1);
@@ -124,6 +134,29 @@ extern "C" void h_file_repeat(int ver, int feat, int raw) {
 	sym_assert(sym_out_equal(b.a, b.b, c.a, c.b), "C02-file-repeat3: third save of the same model differs from the second");
 	sym_assert(q1 == q2 && q2 == q3, "C02-queries: read-only queries answer differently after another save");
 	check_tables(nif, c, false);
+	// a model with several emptied child references (deleted shapes): saves must be repeatable from the first on
+	{
+		NifFile del(nif);
+		for (auto s : del.GetShapes())
+			del.DeleteShape(s);
+		NiNode* droot = del.GetRootNode();
+		if (droot) {
+			// two more children, then emptied: adjacent empty entries in the child list
+			MatTransform t;
+			NiNode* n1 = del.AddNode("Tmp1", t);
+			NiNode* n2 = del.AddNode("Tmp2", t);
+			del.GetHeader().DeleteBlock(del.GetBlockID(n2));
+			del.GetHeader().DeleteBlock(del.GetBlockID(n1));
+		}
+		FmRange d1 = fm_save(del, raw != 0);
+		auto dq1 = digest(del);
+		FmRange d2 = fm_save(del, raw != 0);
+		auto dq2 = digest(del);
+		FmRange d3 = fm_save(del, raw != 0);
+		sym_assert(sym_out_equal(d2.a, d2.b, d3.a, d3.b), "C02-deleted-repeat3: third save of a model with deleted shapes differs from the second");
+		sym_assert(d1.b - d1.a == d2.b - d2.a, "C02-deleted-repeat-size: second save of a model with deleted children has another size than the first (clean-up not completed by one save)");
+		sym_assert(dq1 == dq2, "C02-deleted-queries: queries change between the first and the second save of a model with deleted children");
+	}
 	// saving the freshly built (never loaded) model as well: queries before the first save == after it
 	auto p0 = digest(built, raw == 0);
 	FmRange x = fm_save(built, raw != 0);
